@@ -70,6 +70,7 @@ impl<'c, KD: Kind, const N: usize> MapEng<'c, KD, N> {
             let vid = KD::vid(&val);
             let mut runs = 0u32;
             let mut seen_key: Option<(u8, u32)> = None;
+            let mut modify_addr = 0usize;
             let m = &mut slot.c.m;
             let r: Result<Rep, Pk> = Self::lib(cx, || {
                 let mut rep = Rep { vid: NOID, kid: NOID, out_vid: NOID, inserted_vid: NOID, live: true, ..Default::default() };
@@ -115,6 +116,7 @@ impl<'c, KD: Kind, const N: usize> MapEng<'c, KD, N> {
                             .and_modify(|x| {
                                 tl::tick(Cb::Closure);
                                 runs += 1;
+                                modify_addr = addr(x);
                                 KD::vset(x, KD::vnorm(KD::vval(x) ^ 0x0020_0000));
                             })
                             .or_insert(val);
@@ -214,6 +216,10 @@ impl<'c, KD: Kind, const N: usize> MapEng<'c, KD, N> {
                         let p_mem = PS::of(Prop::C17).and(Prop::C02).and(Prop::C11);
                         cx.chk(p_mem, rep.live, "dead-ref", || format!("{name}: the returned reference does not refer to a live element"));
                         cx.chk(PS::of(Prop::C17), slot.c.contains(rep.va, std::mem::size_of::<KD::V>()), "addr", || format!("{name}: the returned reference points outside the map"));
+                    }
+                    if modify_addr != 0 {
+                        cx.bump(S::addr_checks);
+                        cx.chk(P_ADDR, slot.c.contains(modify_addr, std::mem::size_of::<KD::V>()), "addr", || "and_modify handed its closure a reference that points outside the map".into());
                     }
                     cx.chk(P11, rep.occupied == Some(present.is_some()), "classification", || format!("entry({k}) is {:?} but the key is {}", rep.occupied.map(|o| if o { "Occupied" } else { "Vacant" }), if present.is_some() { "present" } else { "absent" }));
                     // closures
